@@ -234,6 +234,7 @@ const (
 	c45FpBatchOversize = "batch-no-demand-oversize"
 	c45FpRetryChain    = "retry-config-lost-in-builder-chain"
 	c45FpWireRace      = "run-fails-stage-dead-before-wiring"
+	c45FpFloodDeadlock = "deadlock-flooded-parallel-map-before-small-buffer"
 )
 
 // c45IgnoresDemand reports whether stage i pushes elements downstream without
@@ -270,6 +271,31 @@ func c45AnyBatchExposed(c *c45Case, e *c45Expect) bool {
 	return c.FinalBatchN > 0 && c45BatchExposed(c, e, len(c.Stages))
 }
 
+// c45FloodDeadlockAt reports whether stage i is a (Ordered)ParallelMap that is fed by a
+// demand-ignoring stage with more elements than its mailbox holds and is directly
+// followed by a small Buffer (whose mailbox is 2*size): the shape of the blocking-enqueue
+// cycle described in FINDINGS.md section 5.
+func c45FloodDeadlockAt(c *c45Case, e *c45Expect, i int) bool {
+	if i+1 >= len(c.Stages) {
+		return false
+	}
+	s := c.Stages[i]
+	if s.K != c45KPar && s.K != c45KOrderedPar {
+		return false
+	}
+	nx := c.Stages[i+1]
+	return nx.K == c45KBuffer && nx.N <= 64 && e.inLen[i] > 256 && c45IgnoresDemand(c, i-1)
+}
+
+func c45FloodDeadlockShape(c *c45Case, e *c45Expect) bool {
+	for i := range c.Stages {
+		if c45FloodDeadlockAt(c, e, i) {
+			return true
+		}
+	}
+	return false
+}
+
 // c45AvoidKnown rewrites the case so that it stays clear of the listed findings.
 func c45AvoidKnown(c *c45Case) {
 	if vfkit.Known("C45", c45FpRetryChain) {
@@ -278,6 +304,14 @@ func c45AvoidKnown(c *c45Case) {
 		for i := range c.Stages {
 			if c.Stages[i].K == c45KTryMap && c.Stages[i].Strat == c45StratRetry {
 				c.Stages[i].FailTimes = 0
+			}
+		}
+	}
+	if vfkit.Known("C45", c45FpFloodDeadlock) {
+		e := c45Interpret(c)
+		for i := range c.Stages {
+			if c45FloodDeadlockAt(c, &e, i) {
+				c.Stages[i+1].N = 300 // a Buffer whose mailbox (600) outlasts the flood window of the check
 			}
 		}
 	}
@@ -500,9 +534,10 @@ type c45StageErr struct{ stage int }
 func (e *c45StageErr) Error() string { return "c45: stage " + strconv.Itoa(e.stage) + " failed" }
 
 var (
-	c45Events   eventstream.Subscriber
-	c45System   actor.ActorSystem
-	c45StallMax = 10 * time.Second
+	c45Events      eventstream.Subscriber
+	c45System      actor.ActorSystem
+	c45QuietWindow = 4 * time.Second   // no counter of any stage moved for this long: one strike
+	c45OverallCap  = 120 * time.Second // still progressing after this long: inconclusive, never a strike
 )
 
 type c45Fold struct {
@@ -534,6 +569,7 @@ func (s *c45Sleeper) pause(us int, x int64) {
 
 type c45Run struct {
 	timedOut  bool
+	quiet     bool   // timed out because no stage counter moved for a whole quiet window
 	stalled   string // name of the stage a timed-out stream is stuck at
 	skipped   bool   // the run hit a listed known finding that makes it undecidable
 	err       error
@@ -886,6 +922,36 @@ func c45StalledStage(c *c45Case, pids []*actor.PID, actors []actor.Actor) string
 	return "unknown"
 }
 
+// c45Progress renders every observable counter of the running stream: the demand
+// ledgers and element counters of the stage actors and what the sink has seen.
+func c45Progress(actors []actor.Actor, snapshot func() ([]int64, [][]int64), fold *FoldResult[c45Fold]) string {
+	var b strings.Builder
+	for _, a := range actors {
+		switch v := a.(type) {
+		case *flowActor:
+			fmt.Fprintf(&b, "f%d/%d/%d/%d/%d;", v.metrics.elementsIn.Load(), v.metrics.elementsOut.Load(), v.upstreamCredit, v.downstreamDemand, v.outputBuf.len())
+		case *batchFlowActor[int64]:
+			fmt.Fprintf(&b, "b%d/%d/%d/%d/%d;", v.metrics.elementsIn.Load(), v.metrics.elementsOut.Load(), v.upstreamCredit, v.downstreamDemand, len(v.window))
+		case *parallelMapActor[int64, int64]:
+			fmt.Fprintf(&b, "p%d/%d/%d/%d;", v.inFlight, v.inputSeqNo, v.outSeqNo, len(v.pending))
+		case *sinkActor:
+			fmt.Fprintf(&b, "s%d/%d;", v.metrics.elementsIn.Load(), v.credit)
+		case *pullSourceActor:
+			fmt.Fprintf(&b, "o%d;", v.seqNo)
+		case *chanSourceActor[int64]:
+			fmt.Fprintf(&b, "c%d/%d/%d;", v.seqNo, v.demand, v.buf.len())
+		}
+	}
+	it, bt := snapshot()
+	fmt.Fprintf(&b, "k%d/%d;", len(it), len(bt))
+	if fold != nil {
+		fold.mu.Lock()
+		fmt.Fprintf(&b, "F%d", fold.value.N)
+		fold.mu.Unlock()
+	}
+	return b.String()
+}
+
 // c45DrainPanics returns the suspension reasons of stream stage actors published on
 // the actor system's event stream since the last call. No stage function of the
 // grammar panics, so a suspended stage actor is a defect of the stream runtime.
@@ -1006,6 +1072,7 @@ func c45Execute(x *vfkit.X, c *c45Case, src Source[int64], sl *c45Sleeper) c45Ru
 	}
 	defer c45Reap(from)
 	started := time.Now()
+	lastChange, lastSig := started, ""
 	tick := time.NewTicker(300 * time.Millisecond)
 	var panics []string
 	panicPolls := 0
@@ -1024,7 +1091,17 @@ wait:
 					break wait
 				}
 			}
-			if time.Since(started) > c45StallMax {
+			// progress-based stall detection: a strike needs a whole window without any
+			// change of any stage counter or of what the sink has seen; a stream that is
+			// merely slow keeps waiting up to the (inconclusive) overall cap
+			if sig := c45Progress(actors, snapshot, foldRes); sig != lastSig {
+				lastSig, lastChange = sig, time.Now()
+			}
+			if time.Since(lastChange) > c45QuietWindow {
+				r.timedOut, r.quiet = true, true
+				break wait
+			}
+			if time.Since(started) > c45OverallCap {
 				r.timedOut = true
 				break wait
 			}
@@ -1352,11 +1429,16 @@ func c45Exec(x *vfkit.X, c c45Case) {
 			return
 		}
 		if r.timedOut {
-			// Three strikes: a stall is a verdict only when the identical program stalls in
-			// two further executions with fresh stages, handles and functions; anything less
-			// (scheduling luck, the sporadic wiring race) stays inconclusive.
-			strikes := 1
-			for strikes < 3 {
+			// Three strikes: a stall is a verdict only when no counter of any stage moved for a
+			// whole quiet window while Done() stayed open, and the identical program does the
+			// same in two further executions with fresh stages, handles and functions; anything
+			// less (a slow but progressing stream, scheduling luck, the sporadic wiring race)
+			// stays inconclusive.
+			strikes := 0
+			if r.quiet {
+				strikes = 1
+			}
+			for strikes >= 1 && strikes < 3 {
 				errs2 := make([]*c45StageErr, len(c.Stages))
 				for i := range errs2 {
 					errs2[i] = &c45StageErr{stage: i}
@@ -1366,15 +1448,22 @@ func c45Exec(x *vfkit.X, c c45Case) {
 				stop2 := make(chan struct{})
 				r2 := c45Execute(x, &c, c45Build(&c, errs2, sl2, stop2), sl2)
 				close(stop2)
-				if r2.skipped || !r2.timedOut {
+				if r2.skipped || !r2.quiet {
 					break
 				}
 				strikes++
 			}
 			if strikes >= 3 {
-				x.Failf("stream-never-completes:"+r.stalled, "Done() did not close within %v in 3 of 3 executions of the same program; the stream is stuck at stage %q after delivering %d of %d expected elements (program %s, fusion %d)%s", c45StallMax, r.stalled, len(r.items)+len(r.batches)+r.fold.N, len(e.out), c45Shape(&c), c.Fusion, r.stallDiag)
+				fp := "stream-never-completes:" + r.stalled
+				if c45FloodDeadlockShape(&c, &e) {
+					fp = c45FpFloodDeadlock
+				}
+				x.Failf(fp, "Done() stayed open and no stage counter moved for %v in 3 of 3 executions of the same program; the stream is stuck at stage %q after delivering %d of %d expected elements (program %s, fusion %d)%s", c45QuietWindow, r.stalled, len(r.items)+len(r.batches)+r.fold.N, len(e.out), c45Shape(&c), c.Fusion, r.stallDiag)
 			}
 			x.Class("inconclusive-timeout")
+			if !r.quiet {
+				x.Class("inconclusive-timeout:still-progressing-at-cap")
+			}
 			x.Class("inconclusive-timeout:" + c45Shape(&c))
 			if os.Getenv("C45_DEBUG") != "" {
 				b, _ := json.Marshal(c)
